@@ -1133,7 +1133,7 @@ func main() {
 	scratch := vf.Scratch("c45")
 	defer os.RemoveAll(scratch)
 
-	nHist := vf.N(300, 5000)
+	nHist := vf.N(300, 6000)
 	workers := runtime.NumCPU()
 	if workers > 16 {
 		workers = 16
